@@ -245,11 +245,30 @@ func (c *C02Case) Run() string {
 				for i, s := range specs {
 					sl[i] = s.lib(st.Via)
 				}
+				type sval struct{ s, e, st int }
+				var before []sval
+				for _, x := range sl {
+					if x == nil {
+						before = append(before, sval{-99, -99, -99})
+					} else {
+						before = append(before, sval{x.Start(), x.End(), x.Step()})
+					}
+				}
 				defer func() {
 					for i := len(specs); i < len(full); i++ {
 						if full[i] != tensor.Slice(hiddenTail) {
 							lerr = nil
 							tailTouched = fmt.Sprintf("entry %d beyond the length of the caller's slice list was overwritten with %v", i, full[i])
+						}
+					}
+					// the Slice values themselves are the caller's: using them does not change them
+					for i, x := range sl {
+						if x == nil {
+							continue
+						}
+						if now := (sval{x.Start(), x.End(), x.Step()}); now != before[i] {
+							lerr = nil
+							tailTouched = fmt.Sprintf("the caller's Slice value %d was changed from %v to %v by the call", i, before[i], now)
 						}
 					}
 				}()
@@ -287,6 +306,9 @@ func (c *C02Case) Run() string {
 			}
 			if diff := b.FrameDiff(b.RootE); diff != "" {
 				return desc + " was refused but storage changed: " + diff
+			}
+			if msg := derivedProbe(t, m); msg != "" {
+				return desc + " was refused but left the source in another state: " + msg
 			}
 			return "" // a refused step ends the program
 		}
@@ -653,6 +675,28 @@ func TestC02(t *testing.T) {
 				return &C02Case{DT: d.Name, Shape: shape, L: genLayoutKind(rt, lk, len(shape), "l"), Prog: genC02Prog(rt, shape, depth, -1), Base: rapid.Int64Range(0, 20).Draw(rt, "base"), Release: rapid.IntRange(0, 2).Draw(rt, "release") == 0}
 			})
 		}
+	}
+	// long axes (up to 40 entries): single indices and ranges far from the origin
+	for _, lk := range []string{"contig", "lazyT", "cmraw"} {
+		lk := lk
+		cell(t, "C02", "C02.slice", "long-axis/"+lk, nCases(20, 500), func(rt *rapid.T) Case {
+			n := rapid.IntRange(15, 40).Draw(rt, "n")
+			shape := rapid.SampledFrom([][]int{{n}, {n, 2}, {2, n}}).Draw(rt, "shape")
+			var specs []SpecJ
+			for _, dim := range shape {
+				switch rapid.IntRange(0, 3).Draw(rt, "kind") {
+				case 0:
+					specs = append(specs, SpecJ{K: "idx", A: rapid.IntRange(0, dim).Draw(rt, "i")})
+				case 1:
+					specs = append(specs, SpecJ{K: "nil"})
+				default:
+					a := rapid.IntRange(0, dim-1).Draw(rt, "a")
+					specs = append(specs, SpecJ{K: "rng", A: a, B: rapid.IntRange(a+1, dim+2).Draw(rt, "b"), S: rapid.IntRange(1, 5).Draw(rt, "s")})
+				}
+			}
+			specs = avoidEmptyAndF2(shape, specs)
+			return &C02Case{DT: "int16", Shape: shape, L: genLayoutKind(rt, lk, len(shape), "l"), Prog: []C02Step{{Op: "slice", Specs: specs, Via: rapid.SampledFrom([]string{"RS", "S"}).Draw(rt, "via")}}, Base: 0}
+		})
 	}
 	// complete per-axis sweep: one axis runs through every (start,end,step) triple and single index
 	for _, lk := range []string{"contig", "lazyT", "stepsliced", "cmraw"} {
